@@ -4,6 +4,7 @@ import (
 	"fmt"
 	"go/token"
 	"go/types"
+	"sort"
 	"strconv"
 	"strings"
 )
@@ -320,6 +321,47 @@ func (it *Interp) symTypeMethod(t *SymType, name string, pos token.Pos) Value {
 			return []Value{it.keyOf(t)}, nil
 		case "Kind":
 			return []Value{&SymBasicKind{T: t}}, nil
+		case "Info":
+			// types.BasicInfo of a symbolic basic type: decide the class of the kind
+			// (bool / integer / float / complex / string / ...) and answer with the
+			// flags all kinds of that class share
+			f := it.fact(t)
+			if f.Basic == nil {
+				f.Basic = map[types.BasicKind]bool{}
+				for _, a := range allBasic {
+					f.Basic[a] = true
+				}
+			}
+			classes := map[string][]types.BasicKind{}
+			var order []string
+			var ks []int
+			for k := range f.Basic {
+				ks = append(ks, int(k))
+			}
+			sort.Ints(ks)
+			for _, k := range ks {
+				c := BasicClass(types.BasicKind(k))
+				if types.BasicKind(k) >= types.Uint && types.BasicKind(k) <= types.Uintptr {
+					c = "unsigned"
+				}
+				if _, ok := classes[c]; !ok {
+					order = append(order, c)
+				}
+				classes[c] = append(classes[c], types.BasicKind(k))
+			}
+			if len(order) == 0 {
+				return []Value{0}, nil
+			}
+			pick := 0
+			if len(order) > 1 {
+				pick = it.choose(len(order), "basicclass("+t.R().Desc+")", order...)
+			}
+			keep := classes[order[pick]]
+			f.Basic = map[types.BasicKind]bool{}
+			for _, k := range keep {
+				f.Basic[k] = true
+			}
+			return []Value{int(types.Typ[keep[0]].Info())}, nil
 		case "NumFields":
 			return []Value{it.numFields(t)}, nil
 		case "Field":
@@ -910,6 +952,21 @@ func init() {
 				return []Value{true}, nil
 			}
 			return []Value{it.pred("AssignableTo(" + x.String() + "," + y.String() + ")")}, nil
+		},
+		"go/types.Comparable": func(it *Interp, a []Value) ([]Value, error) {
+			t, ok := a[0].(*SymType)
+			if !ok {
+				return nil, fmt.Errorf("Comparable of %T", a[0])
+			}
+			if f := it.fact(t); f != nil {
+				switch f.Kind {
+				case KBasic, KPointer, KChan, KInterface:
+					return []Value{true}, nil
+				case KSlice, KMap, KSignature:
+					return []Value{false}, nil
+				}
+			}
+			return []Value{it.pred("types.IsComparable(" + t.R().Desc + ")")}, nil
 		},
 		"go/types.ConvertibleTo": func(it *Interp, a []Value) ([]Value, error) {
 			return []Value{it.pred("ConvertibleTo(" + Describe(a[0]) + "," + Describe(a[1]) + ")")}, nil
